@@ -269,6 +269,14 @@ class Assembler:
                         self.fired.add('5:drop-metrics-block')
                         k = kc + 1
                         continue
+            # if log_enabled!(..) { .. }   (logging only)
+            if s.is_id(k, 'if') and s.is_id(k + 1, 'log_enabled') and s.is_p(k + 2, '!') and s.is_p(k + 3, '('):
+                kb_ = m[k + 3] + 1
+                if s.is_p(kb_, '{') and not s.is_id(m[kb_] + 1, 'else'):
+                    ed.delete(s.t[k][1], s.t[m[kb_]][2])
+                    self.fired.add('5:drop-log_enabled-block')
+                    k = m[kb_] + 1
+                    continue
             if s.is_id(k) and s.is_p(k + 1, '!') and k + 2 < end and s.kind(k + 2) == 'p' and s.s(k + 2) in '([{':
                 name = s.s(k)
                 k0 = k
